@@ -17,6 +17,9 @@ LABELS = [(d, p) for d in (0, 1, 2) for p in (5, 10)]
 CUTS = {"float": [0, 0.5, 1, 1.5, 2, 3, 4, 5],
         "duration": [0, 0.5, 1, 1.5, 2, 3, 4, 5],
         "int": [0, 1, 2, 3, 4, 5]}
+CUTS["float@100"] = CUTS["float@-10"] = [0, 1, 2.5, 4, 5]
+CUTS["duration@1h"] = [0, 1, 2.5, 4, 5]
+CUTS["int@2^60"] = [0, 1, 3, 4, 5]
 
 
 def alphabet(clock, nmax):
@@ -27,6 +30,8 @@ def alphabet(clock, nmax):
     a.append(("step",))
     for k in range(nmax):
         a.append(("pause_at", k))
+    for j in range(min(2, nmax)):
+        a.append(("pause_tc", j))
     return a
 
 
@@ -136,6 +141,9 @@ def run(ctx):
     tasks = [("float", 3, 2, i, nch) for i in range(nch)]
     tasks += [(c, 2, 2, i, common.NCPU) for c in ("int", "duration")
               for i in range(common.NCPU)]
+    # replications that do not start at time zero
+    tasks += [(c, 2, 2, i, 8) for c in ("float@100", "float@-10", "int@2^60",
+                                        "duration@1h") for i in range(8)]
     if not quick:
         tasks += [(c, 3, 2, i, nch) for c in ("int", "duration")
                   for i in range(nch)]
